@@ -43,7 +43,7 @@ import (
 // cell may produce; the monitor is the property itself: code 99 anywhere, or anything but
 // ErrRaftShutdown for a call made after Shutdown() completed.
 
-const c17Watchdog = 1500 * time.Millisecond
+var c17Watchdog = 1500 * time.Millisecond
 
 func c17code(err error) uint64 {
 	switch {
@@ -330,11 +330,15 @@ var c17phaseName = map[int]string{0: "running", 1: "racing-shutdown", 2: "after-
 
 // c17isolated runs one cell in a child process: prints the code; a crash is code 98
 func c17isolated(api, role int, buffered bool, phase int, skew time.Duration) (uint64, error, string) {
+	return c17isolatedW(api, role, buffered, phase, skew, 0)
+}
+
+func c17isolatedW(api, role int, buffered bool, phase int, skew time.Duration, watchdogMs int) (uint64, error, string) {
 	exe, err := os.Executable()
 	if err != nil {
 		return 0, err, ""
 	}
-	cmd := exec.Command(exe, "c17cell", itoa(api), itoa(role), itoa(int(b2u(buffered))), itoa(phase), itoa(int(skew/time.Microsecond)))
+	cmd := exec.Command(exe, "c17cell", itoa(api), itoa(role), itoa(int(b2u(buffered))), itoa(phase), itoa(int(skew/time.Microsecond)), itoa(watchdogMs))
 	var out, eb bytes.Buffer
 	cmd.Stdout, cmd.Stderr = &out, &eb
 	runErr := cmd.Run()
@@ -359,9 +363,12 @@ func c17isolated(api, role int, buffered bool, phase int, skew time.Duration) (u
 
 // entry point of the child: harness c17cell api role buffered phase skew_us
 func c17child(args []string) {
-	var v [5]int
-	for i := 0; i < 5 && i < len(args); i++ {
+	var v [6]int
+	for i := 0; i < 6 && i < len(args); i++ {
 		v[i], _ = strconv.Atoi(args[i])
+	}
+	if v[5] > 0 {
+		c17Watchdog = time.Duration(v[5]) * time.Millisecond
 	}
 	code, err := c17cell(v[0], v[1], v[2] != 0, v[3], time.Duration(v[4])*time.Microsecond)
 	if err != nil {
@@ -372,12 +379,40 @@ func c17child(args []string) {
 }
 
 func c17run(api, role int, buffered bool, phase int, skew time.Duration) (uint64, error, string) {
+	var c uint64
+	var err error
+	detail := ""
 	if phase == 1 || phase == 3 || phase == 4 || phase == 5 {
-		return c17isolated(api, role, buffered, phase, skew)
+		c, err, detail = c17isolated(api, role, buffered, phase, skew)
+	} else {
+		c, err = c17cell(api, role, buffered, phase, skew)
 	}
-	c, err := c17cell(api, role, buffered, phase, skew)
-	return c, err, ""
+	if err == nil && c == 99 {
+		// "never resolved" was decided by a 1.5 s watchdog while 12 cells run side by side: a stranded future stays
+		// stranded however long one waits, a starved machine does not - the cell is repeated alone in a child process
+		// with an 8 s watchdog (three times: the racing cells depend on the schedule) and reported only if it strands again
+		c17confirm.Lock()
+		defer c17confirm.Unlock()
+		if c17confirmed >= 3 {
+			return c, nil, detail // three cells already stranded again under the long watchdog: this tree strands futures
+		}
+		for k := 0; k < 3; k++ {
+			c2, err2, d2 := c17isolatedW(api, role, buffered, phase, skew, 8000)
+			if err2 == nil && (c2 == 99 || c2 == 98) {
+				c17confirmed++
+				return c2, nil, d2
+			}
+			if err2 == nil {
+				c = c2
+			}
+		}
+		return c, nil, detail
+	}
+	return c, err, detail
 }
+
+var c17confirm sync.Mutex
+var c17confirmed int
 
 func c17report(cw *caseWriter, tag string, in []uint64, code uint64, detail string) {
 	api, role, buffered, phase := int(in[0]), int(in[1]), in[2] != 0, int(in[3])
